@@ -309,8 +309,74 @@ def rule_shift(ctx: Ctx) -> None:
     ctx.ob("C02.SHIFT", IMG, f, f"shift_right_img: selected band {sb}", sb == ["img_right['im'].data", "img_right['im'].data[(band_index_right, ::, ::)]"])
 
 
+def rule_band_owner(ctx: Ctx) -> int:
+    """A band index computed from one dataset's band names is used on that dataset only (the two images may store
+    their bands in different orders)."""
+    tree = ctx.tree
+    n = 0
+    for rel in tree.py_files("pandora"):
+        for q, fn in sorted(tree.funcs(rel).items()):
+            d = Defs(fn)
+            owners: Dict[str, str] = {}
+            for name, ds in d.defs.items():
+                for st, val, pos in ds:
+                    if pos is None and isinstance(val, ast.Call) and isinstance(val.func, ast.Attribute) and val.func.attr == "index":
+                        c = canon(val.func.value)
+                        for coord in ("band_im", "band_classif"):
+                            if c.startswith("list(") and c.endswith(f".{coord}.data)"):
+                                owners[name] = c[len("list(") : -len(f".{coord}.data)")]
+            if not owners:
+                continue
+            shifted = {name: canon(val.args[0]) for name, ds in d.defs.items() for st, val, pos in ds if isinstance(val, ast.Call) and (dotted(val.func) or "").endswith("shift_right_img") and val.args}
+            for node in walk_no_nested(fn):
+                if not (isinstance(node, ast.Subscript) and isinstance(node.slice, ast.Tuple) and node.slice.elts and isinstance(node.slice.elts[0], ast.Name) and node.slice.elts[0].id in owners):
+                    continue
+                base = node.value  # <E>["im"].data
+                if not (isinstance(base, ast.Attribute) and base.attr == "data" and isinstance(base.value, ast.Subscript)):
+                    continue
+                e = base.value.value
+                root = e
+                while isinstance(root, ast.Subscript):
+                    root = root.value
+                r = canon(root)
+                r = shifted.get(r, r)
+                b = node.slice.elts[0].id
+                n += 1
+                ctx.ob("C02.BAND-OWNER", rel, node, f"{q}: `{canon(e)[:50]}` is indexed with `{b}`, the position of the band in `{owners[b]}`", r == owners[b], expected=f"a band index computed from `{r}`'s own band names", detail="the left and right images may store their bands in different orders: the index of the band in one image selects another band in the other")
+    return n
+
+
+def rule_band_guard(ctx: Ctx) -> int:
+    """Contradiction rule: a function that tests `len(X["im"].data.shape) > 2` believes X may be a band-less (2-D)
+    dataset -- shift_right_img returns such datasets for the fractional shifts; X.band_im exists only for 3-D images,
+    so every read of X.band_im must sit inside the positive branch of that test."""
+    tree = ctx.tree
+    n = 0
+    for rel in tree.py_files("pandora"):
+        for q, fn in sorted(tree.funcs(rel).items()):
+            tests = []
+            for node in walk_no_nested(fn):
+                if isinstance(node, ast.If) and isinstance(node.test, ast.Compare) and len(node.test.ops) == 1 and isinstance(node.test.ops[0], ast.Gt) and canon(node.test.comparators[0]) == "2":
+                    l = canon(node.test.left)
+                    for suffix in ("['im'].data.shape)", "['im'].shape)"):
+                        if l.startswith("len(") and l.endswith(suffix):
+                            tests.append((l[4 : -len(suffix)], node))
+            if not tests:
+                continue
+            names = {x for x, _ in tests}
+            for node in walk_no_nested(fn):
+                if isinstance(node, ast.Attribute) and node.attr == "band_im" and canon(node.value) in names:
+                    x = canon(node.value)
+                    n += 1
+                    inside = any(pol and any(t is test.test and tx == x for tx, test in tests) for t, pol in guards_of(node, stop=fn))
+                    ctx.ob("C02.BAND-GUARD", rel, node, f"{q}: `{x}.band_im` is read {'inside' if inside else 'outside'} the branch `len({x}['im'].data.shape) > 2`", inside, expected=f"the band lookup of `{x}` only where `{x}` is known to be 3-D", detail=f"the function itself handles a 2-D `{x}` (the shifted right images of shift_right_img carry no band_im coordinate): reading `{x}.band_im` before the dimension test raises AttributeError for a selected band with subpix > 1, so no cost volume is produced for that configuration")
+    return n
+
+
 def run(ctx: Ctx) -> None:
+    ctx.floor("C02.BAND-GUARD", rule_band_guard(ctx), 2)
     rule_skeleton(ctx)
+    ctx.floor("C02.BAND-OWNER", rule_band_owner(ctx), 14)
     rule_pixelwise(ctx)
     rule_zero_var(ctx)
     rule_point_interval(ctx)
@@ -369,6 +435,7 @@ MUTANTS = [
     {"id": "zero-var-np-divide", "file": ZN, "old": "    valid = np.where(divide_standard > 0)\n    zncc[valid] /= divide_standard[valid]\n\n    # Otherwise zncc is equal to 0\n    zncc[np.where(divide_standard <= 0)] = 0\n", "new": "    np.divide(zncc, divide_standard, out=zncc, where=divide_standard > 0)\n"},
     {"id": "col-offset-dropped", "file": ZN, "old": '        index_col = index_col - img_left.coords["col"].data[0]  # If first col coordinate is not 0\n', "new": ""},
     {"id": "ssd-abs", "file": SAD, "old": '            cost = (\n                img_left["im"].data[:, point_p[0] : point_p[1]] - img_right["im"].data[:, point_q[0] : point_q[1]]\n            ) ** 2', "new": '            cost = abs(\n                img_left["im"].data[:, point_p[0] : point_p[1]] - img_right["im"].data[:, point_q[0] : point_q[1]]\n            )'},
+    {"id": "ssd-right-band-from-left-index", "file": SAD, "old": '                    - img_right["im"].data[band_index_right, :, point_q[0] : point_q[1]]\n                ) ** 2', "new": '                    - img_right["im"].data[band_index_left, :, point_q[0] : point_q[1]]\n                ) ** 2'},
     {"id": "eq-ufunc-divide-keeps-zeroing", "kind": "equiv", "file": ZN, "old": "    valid = np.where(divide_standard > 0)\n    zncc[valid] /= divide_standard[valid]\n", "new": "    np.divide(zncc, divide_standard, out=zncc, where=divide_standard > 0)\n"},
     {"id": "eq-rename-i_right", "kind": "equiv", "edits": [(CEN, "i_right", "k_shift", 3)]},
     {"id": "eq-swap-window-dims-of-square-sum", "kind": "equiv", "file": SAD, "old": "strides_windows = (str_row, str_col, str_disp, str_col, str_row)", "new": "strides_windows = (str_col, str_row, str_disp, str_col, str_row)"},
